@@ -663,6 +663,14 @@ def gen_bar(rng, num, den):
 D37B_WITNESS = {"level": "bar", "tracks": [{"name": None, "bars": [
     {"rel": [G.pm(ON, 3, None, note=60, vel=64), G.pm(WAIT, 3, 24), G.pm(OFF, 3, None, note=60)], "num": 4, "den": 4, "key": None, "dch": 3,
      "muts": [["set_channel", 0]]}]}]}
+# the recorded instances of D44b / D45b in THIS oracle's input format (audit round 5, item 4): the same bars as C10's D44 / D45 examples
+D44B_EXAMPLE = {"level": "bar", "tracks": [{"name": None, "bars": [
+    {"rel": [G.pm(ON, 0, None, note=60, vel=64), G.pm(WAIT, 0, 12), G.pm(ON, 1, None, note=60, vel=64), G.pm(WAIT, 1, 24),
+             G.pm(OFF, 0, None, note=60), G.pm(WAIT, 0, 24), G.pm(OFF, 1, None, note=60)], "num": 4, "den": 4, "key": None, "dch": 3,
+     "muts": [["set_channel", 0]]}]}]}
+D45B_EXAMPLE = {"level": "bar", "tracks": [{"name": None, "bars": [
+    {"rel": [G.pm(WAIT, 0, 40), G.pm(ON, 0, None, note=1, vel=64), G.pm(WAIT, 0, 2), G.pm(OFF, 0, None, note=1)], "num": 7, "den": 16, "key": 3, "dch": 15,
+     "muts": [["transpose", -12]]}]}]}
 D24D_EXAMPLE = {"init": ["rel", [G.pm(ON, 0, None, note=60, vel=64), G.pm(WAIT, 0, 12), G.pm(OFF, 0, None, note=60)]], "route": "copy",
                "ops": [["concatOther"], ["setChannel", 5]], "side": "derived", "cuts": [24], "both_fresh": True}
 
@@ -685,12 +693,12 @@ def setup(ctx):
     def _muts_of(f, names):
         return any(m[0] in names for tr in f["input"].get("tracks", []) for b in tr["bars"] for m in b.get("muts", []))
 
-    def kf_d42b(f):
+    def kf_d44b(f):
         # D44 through a bar / track / composition copy: the judged bar's content read before the copy does not pair its notes per (channel, pitch)
         return f["oracle"] == "copy-after-mutation" and f["clause"] == "copy-mut" and _muts_of(f, ("set_channel",)) and BM.is_merge_outcome(f)
-    ctx.kf_predicates["D44b"] = kf_d42b
+    ctx.kf_predicates["D44b"] = kf_d44b
 
-    def kf_d43b(f):
+    def kf_d45b(f):
         # D45 through a bar / track / composition copy: a transposition in the history, and the bar's own content read before the copy no longer
         # lasts its capacity (longer: the copy raised BarException; shorter: same events, the copy padded back)
         if not (f["oracle"] == "copy-after-mutation" and f["clause"] == "copy-mut" and _muts_of(f, ("transpose", "bar_transpose"))):
@@ -699,7 +707,7 @@ def setup(ctx):
         if d.get("raised") == "BarException":
             return bool(d.get("over"))
         return "cap" in d and BM.is_requantised_outcome(d, d["cap"])
-    ctx.kf_predicates["D45b"] = kf_d43b
+    ctx.kf_predicates["D45b"] = kf_d45b
 
     def kf_d24d(f):
         # the history hands one side to the other as an argument of concatenate: the receiver then holds the argument's message OBJECTS, and a
@@ -747,6 +755,8 @@ def generate(ctx):
     ctx.check("independent", D24D_EXAMPLE)      # the recorded instance of the known finding
     for level in ("bar", "track", "composition"):
         ctx.check("copy-after-mutation", dict(D37B_WITNESS, level=level))      # audit round 4, D1: built on channel 3, moved to channel 0, copied
+        ctx.check("copy-after-mutation", dict(D44B_EXAMPLE, level=level))      # D44b (known finding)
+        ctx.check("copy-after-mutation", dict(D45B_EXAMPLE, level=level))      # D45b (known finding)
     for i in range(ctx.n(200, 4000)):
         route = ROUTES[i % len(ROUTES)]
         a, notes = G.gen_wf_abs(rng, n_notes=rng.randint(1, 6), channels=rng.choice([(0,), (0,), (0, 1)]), max_tick=150, max_dur=60,
